@@ -2,6 +2,7 @@ package dnsmsg
 
 import (
 	"net"
+	"slices"
 
 	"github.com/AdguardTeam/golibs/syncutil"
 	"github.com/miekg/dns"
@@ -87,13 +88,28 @@ func (c *optCloner) clone(rr *dns.OPT) (clone *dns.OPT, full bool) {
 			optClone = opt
 		// TODO(a.garipov): Add more if necessary.
 		default:
-			return dns.Copy(rr).(*dns.OPT), false
+			return copyOPT(rr), false
 		}
 
 		clone.Option = append(clone.Option, optClone)
 	}
 
 	return clone, true
+}
+
+// copyOPT returns a deep copy of rr made with [dns.Copy].  It also clones the
+// addresses of the subnet options, because [dns.Copy] leaves them shared with
+// rr, and [optCloner.put] would later give them to the clones of other
+// messages while rr is still in use.
+func copyOPT(rr *dns.OPT) (clone *dns.OPT) {
+	clone = dns.Copy(rr).(*dns.OPT)
+	for _, opt := range clone.Option {
+		if sn, ok := opt.(*dns.EDNS0_SUBNET); ok {
+			sn.Address = slices.Clone(sn.Address)
+		}
+	}
+
+	return clone
 }
 
 // put returns structures from rr into c's pools.
